@@ -885,16 +885,16 @@ def build_world_a(rts=False):
     m.global_('arr_tex', H_, m.image('D2', True, V(S_ + 'Sampled', kind=sk('Float'), multi=False)), 1, 15, ['FRAGMENT'])
     m.global_('pc', V('naga::AddressSpace::PushConstant'), pcs, None, None, ['VERTEX', 'FRAGMENT'])
     L = 'naga::Literal::'
-    for name, var, payload in (('C_F32', 'F32', '1.5f32'), ('C_I32', 'I32', '-3i32'), ('C_U32', 'U32', '7u32'), ('C_BOOL', 'Bool', True), ('C_F64', 'F64', '2.5f64'),
-                               ('C_I64', 'I64', '5i64'), ('C_U64', 'U64', '6u64'), ('C_AI', 'AbstractInt', '9i64'), ('C_AF', 'AbstractFloat', '0.5f64')):
-        p = payload if isinstance(payload, bool) else Tok(payload)
-        m.const(name, f32_, V('naga::Expression::Literal', **{'0': V(L + var, **{'0': p})}))
+    for name, var, payload in (('C_F32', 'F32', Num('f32', 1.5)), ('C_I32', 'I32', Num('i32', -3)), ('C_U32', 'U32', Num('u32', 7)), ('C_BOOL', 'Bool', True), ('C_F64', 'F64', Num('f64', 2.5)),
+                               ('C_I64', 'I64', Num('i64', 5)), ('C_U64', 'U64', Num('u64', 6)), ('C_AI', 'AbstractInt', Num('i64', 9)), ('C_AF', 'AbstractFloat', Num('f64', 0.5)),
+                               ('C_NEG', 'F32', Num('f32', -2.25))):
+        m.const(name, f32_, V('naga::Expression::Literal', **{'0': V(L + var, **{'0': payload})}))
     m.const('C_ZERO', u32_, V('naga::Expression::ZeroValue', **{'0': u32_}))
     for zn, zt in (('C_ZERO_F32', f32_), ('C_ZERO_I32', i32_), ('C_ZERO_BOOL', bool_), ('C_ZERO_F64', m.scalar('Float', 8)), ('C_ZERO_I64', m.scalar('Sint', 8)),
                    ('C_ZERO_U64', m.scalar('Uint', 8))):
         m.const(zn, zt, V('naga::Expression::ZeroValue', **{'0': zt}))
     m.const('C_ZERO_VEC', v4, V('naga::Expression::ZeroValue', **{'0': v4}))
-    m.const(None, f32_, V('naga::Expression::Literal', **{'0': V(L + 'F32', **{'0': Tok('1f32')})}))
+    m.const(None, f32_, V('naga::Expression::Literal', **{'0': V(L + 'F32', **{'0': Num('f32', 1.0)})}))
     m.const('C_COMPOSE', v4, V('naga::Expression::Compose', ty=v4, components=[]))
     m.override('o_flag', bool_)
     m.override('o_scale', f32_, init=True)
